@@ -96,6 +96,7 @@ class Renderer:
         f = lib.fns[b.name]
         # look through private helpers that write into a caller-supplied String (extracted emission code)
         self.helpers = set()
+        self.orig_name = b.name
 
         def emits(cb, t, _self=self):
             ff = lib.fns.get(cb.name, {})
@@ -104,13 +105,14 @@ class Renderer:
             ins = ff.get("inputs", [])
             writes_acc = any(x.get("s", "").startswith("&mut std::string::String") for x in ins)
             # a text builder: strings in, String out (e.g. fn rename_line(name: &str) -> String { format!(..) })
+            # (the options themselves may be among the inputs: fn derive_line(&self: &Options) -> String - the field reads
+            # then appear in the renderer's own body, where the use-set rules judge them)
             text_builder = ff.get("output", {}).get("adt") == "std::string::String" and ins and \
-                all(x.get("prim") == "str" or x.get("adt") == "std::string::String" for x in ins)
+                all(x.get("prim") == "str" or x.get("adt") in ("std::string::String", "options::Options") or x.get("adt") in _self.carriers for x in ins)
             if not (writes_acc or text_builder):
                 return False
             _self.helpers.add(cb.name)
             return True
-        self.orig_name = b.name
         b = self.body = mir.inline_calls(lib, b, emits)
         direct = [i for i, t in enumerate(f["inputs"]) if t.get("adt") == "options::Options"]
         self.ctx_arg = None
